@@ -1,6 +1,8 @@
 package an
 
 import (
+	"go/constant"
+	"go/token"
 	"golang.org/x/tools/go/ssa"
 )
 
@@ -481,4 +483,68 @@ func InstrWeight(pred func(ssa.Instruction) bool, depth int) func(ssa.Instructio
 		}
 	}
 	return wf(depth)
+}
+
+// ReachableFromFeasible is ReachableFrom that does not follow a branch whose condition is a boolean phi with a
+// constant on the edge by which the path entered the phi's block (a loop flag: `for running { … running = false }`).
+func ReachableFromFeasible(a, b ssa.Instruction) bool {
+	if a.Parent() != b.Parent() {
+		return false
+	}
+	if a.Block() == b.Block() && indexOf(a) < indexOf(b) {
+		return true
+	}
+	type st struct{ blk, pred *ssa.BasicBlock }
+	seen := map[st]bool{}
+	var stack []st
+	push := func(from *ssa.BasicBlock) {
+		for _, s := range from.Succs {
+			stack = append(stack, st{s, from})
+		}
+	}
+	push(a.Block())
+	for len(stack) > 0 {
+		x := stack[len(stack)-1]
+		stack = stack[:len(stack)-1]
+		if seen[x] {
+			continue
+		}
+		seen[x] = true
+		if x.blk == b.Block() {
+			return true
+		}
+		// a branch decided by the way this block was entered
+		if iff, ok := x.blk.Instrs[len(x.blk.Instrs)-1].(*ssa.If); ok {
+			cond := iff.Cond
+			neg := false
+			for {
+				u, isU := cond.(*ssa.UnOp)
+				if !isU || u.Op != token.NOT {
+					break
+				}
+				cond, neg = u.X, !neg
+			}
+			if phi, isPhi := cond.(*ssa.Phi); isPhi && phi.Block() == x.blk {
+				for k, pb := range x.blk.Preds {
+					if pb != x.pred {
+						continue
+					}
+					if kc, isK := phi.Edges[k].(*ssa.Const); isK && kc.Value != nil && kc.Value.Kind() == constant.Bool {
+						val := constant.BoolVal(kc.Value) != neg
+						if val {
+							stack = append(stack, st{x.blk.Succs[0], x.blk})
+						} else {
+							stack = append(stack, st{x.blk.Succs[1], x.blk})
+						}
+						goto next
+					}
+				}
+			}
+		}
+		for _, s := range x.blk.Succs {
+			stack = append(stack, st{s, x.blk})
+		}
+	next:
+	}
+	return false
 }
